@@ -266,6 +266,7 @@ def verify (cs : Suite) (σ : Signature) (pk : PublicKey) (bases : List Int) (ms
   let rhs := tmod (am * bs * pk.c) pk.N
   if msg < 0 ∨ msg ≥ 2 ^ cs.lm then pure false
   else if σ.e ≤ 2 ^ (cs.le - 1) ∨ σ.e ≥ 2 ^ cs.le then pure false
+  else if σ.v ≤ 0 ∨ σ.v ≥ pk.N then pure false
   else pure (lhs == rhs)
 
 /-- `Signature::verify_multiattr(&self, pk, a_bases, messages)`. -/
@@ -279,6 +280,7 @@ def verifyMultiattr (cs : Suite) (σ : Signature) (pk : PublicKey) (bases : List
     let rhs := tmod (rhs * bs * pk.c) pk.N
     if msgs.any (fun m => m < 0 ∨ m ≥ 2 ^ cs.lm) then pure false
     else if σ.e ≤ 2 ^ (cs.le - 1) ∨ σ.e ≥ 2 ^ cs.le then pure false
+    else if σ.v ≤ 0 ∨ σ.v ≥ pk.N then pure false
     else pure (lhs == rhs)
 
 /-- `disclose_selectively`: hidden positions get base `a_i^{m_i}` and message `1`. -/
@@ -649,7 +651,10 @@ def nisp5Verify (π : SignaturePoK) (cpk : CommitmentPK) (pk : PublicKey) (bases
     let h9 ← pw cpk.h π.s9 N
     let ce ← pw π.Ce.value (-c) N
     let in5 := tmod (g4 * h9 * ce) N
-    pure (hashInts [in1, in2, in3, in4, in5] == c)
+    -- the four commitments are elements of `Z_N`: only their reduced representatives are accepted
+    let reduced := fun (x : Int) => decide (0 ≤ x) && decide (x < N)
+    pure (hashInts [in1, in2, in3, in4, in5] == c && reduced π.Cx.value && reduced π.Cv.value
+      && reduced π.Cw.value && reduced π.Ce.value)
 
 /-! ### `src/cl03/range_proof.rs` (Boudot 2000) -/
 
@@ -728,7 +733,9 @@ def proofOfSquare (x r1 g h E : Int) (l t : Nat) (b : Int) (s s1 s2 : Nat) (n : 
 
 /-- Algorithm 4, `verify_of_square`. -/
 def verifyOfSquare (π : ProofOfS) (g h n : Int) : M Bool :=
-  verifySameSecret π.F π.E g h π.F h n π.proofSs
+  -- `F` is an element of `Z_n`: only its reduced representative is accepted
+  if π.F < 0 ∨ n ≤ π.F then pure false
+  else verifySameSecret π.F π.E g h π.F h n π.proofSs
 
 /-- Algorithm 5, `proof_large_interval_specific` (rejection loop, two draws per iteration). -/
 def proofLargeLoop (x r g h : Int) (t l : Nat) (b : Int) (s : Nat) (n : Int) (T : Nat) : Nat → M ProofLi
@@ -847,6 +854,7 @@ def rangeProve (cs : Suite) (value : Int) (c : Commitment) (g h n rmin rmax : In
 /-- `Boudot2000RangeProof::verify(&self, base1, base2, module, rmin, rmax)`. -/
 def rangeVerify (cs : Suite) (π : RangeProof) (g h n rmin rmax : Int) : M Bool := do
   if rmax ≤ rmin then panic
+  else if π.E < 0 ∨ n ≤ π.E then pure false
   else
     let T := rangeT cs rmin rmax
     let E' ← pw π.E (2 ^ T) n
